@@ -86,9 +86,39 @@ class Program:
         return fn
 
     def build(self):
-        self.ov = Ovld()
-        for m in self.methods:
-            self.ov.register(self.make(m), priority=m.get("prio", 0))
+        """spec["mode"]: plain (default) | variant | mixin | method
+        variant: methods[:split] on a base function, the rest on base.copy()
+        mixin:   methods[:split] and methods[split:] on two functions combined with Ovld(mixins=[a, b])
+        method:  every method takes self; the function is a class attribute and is called on an instance"""
+        mode = self.spec.get("mode", "plain")
+        split = self.spec.get("split", len(self.methods))
+        self.instance = None
+        if mode == "method":
+            for m in self.methods:
+                m["self"] = True
+        if mode == "variant":
+            base = Ovld()
+            for m in self.methods[:split]:
+                base.register(self.make(m), priority=m.get("prio", 0))
+            self.base = base
+            self.ov = base.copy()
+            for m in self.methods[split:]:
+                self.ov.register(self.make(m), priority=m.get("prio", 0))
+        elif mode == "mixin":
+            a, b = Ovld(), Ovld()
+            for m in self.methods[:split]:
+                a.register(self.make(m), priority=m.get("prio", 0))
+            for m in self.methods[split:]:
+                b.register(self.make(m), priority=m.get("prio", 0))
+            self.parts = (a, b)
+            self.ov = Ovld(mixins=[a, b])
+        else:
+            self.ov = Ovld()
+            for m in self.methods:
+                self.ov.register(self.make(m), priority=m.get("prio", 0))
+        if mode == "method":
+            self.cls = type("Holder", (), {"f": self.ov})
+            self.instance = self.cls()
         self.bind()
         return self.ov
 
@@ -111,6 +141,9 @@ class Program:
     def call(self, call, args=None):
         pos, kw, alt = args or self.args(call)
         self.vf.alt = alt
+        if self.instance is not None:
+            inst = self.instance
+            return outcome(lambda: inst.f(*pos, **kw), self.vf, self.names)
         return outcome(lambda: self.ov(*pos, **kw), self.vf, self.names)
 
     def resolve(self, call, args=None):
